@@ -100,7 +100,7 @@ pub fn pick_plain(r: &mut Rng, n: usize, kind: u64, qs: &[u64]) -> u64 {
 pub fn prime_one_mod(n: usize, t: u64, bits: usize, avoid: &[u64]) -> Option<u64> {
     let f = (2 * n as u64).checked_mul(t)?;
     if (64 - f.leading_zeros() as usize) + 2 > bits { return None; }
-    let ps = std::panic::catch_unwind(|| hu::get_primes(f, bits, 3)).ok()?;
+    let ps = std::panic::catch_unwind(|| hu::get_primes(f, bits, 8)).ok()?;
     ps.iter().map(|m| m.value()).find(|p| !avoid.contains(p))
 }
 pub fn gcd(a: u64, b: u64) -> u64 { if b == 0 { a } else { gcd(b, a % b) } }
